@@ -442,7 +442,7 @@ def isoAdsPart (i : IsoIn) (autoAds : Bool) : Sql Unit :=
     else isoTail i
   else isoTail i
 
-theorem isoToDb_eq (i : IsoIn) (autoMat autoAds : Bool) :
+lemma isoToDb_eq (i : IsoIn) (autoMat autoAds : Bool) :
     isoToDb i autoMat autoAds =
       if autoMat then do
         let known ← readStmt fun db => db.mats.contains (i.material.getD "")
@@ -912,7 +912,7 @@ def adsPropLoop (nm : String) (props : List (String × List (Option String))) : 
       adsValLoop nm t vs
       pure (ForInStep.yield PUnit.unit)
 
-theorem adsToDb_eq (name : Option String) (props : List (String × List (Option String))) (autoinsert overwrite : Bool) :
+lemma adsToDb_eq (name : Option String) (props : List (String × List (Option String))) (autoinsert overwrite : Bool) :
     adsToDb name props autoinsert overwrite = (do
       let nm := name.getD ""
       if overwrite then
@@ -1072,7 +1072,7 @@ def matPropLoop (nm : String) (props : List (String × List (Option String))) : 
       matValLoop nm t vs
       pure (ForInStep.yield PUnit.unit)
 
-theorem matToDb_eq (name : Option String) (props : List (String × List (Option String))) (autoinsert overwrite : Bool) :
+lemma matToDb_eq (name : Option String) (props : List (String × List (Option String))) (autoinsert overwrite : Bool) :
     matToDb name props autoinsert overwrite = (do
       let nm := name.getD ""
       if overwrite then
